@@ -35,24 +35,29 @@ Within(g, P) ==   \* | g*10^9 - P | <= 10^9 + P/10^15 + 1     (g, P naturals)
       tol == Add(Add(<<0, 0, 0, 1>>, DropLimbs(P, 5)), <<1>>)
   IN Leq(diff, tol)
 
-Accept(v) ==
-  LET rec == RecOf(v)
-      real == V(v.real)
-      mono == V(v.mono)
-      e == F!Now(rec, real, mono)
-  IN /\ v.got.kind = e.kind
-     /\ (e.kind = "Ok" =>
-          /\ v.got.status = e.status
-          /\ SAdd(V(v.got.earliest), V(v.got.latest)) = SAdd(real, real)
-          /\ SLeq(V(v.got.earliest), V(v.got.latest))
-          /\ LET half == SSub(V(v.got.latest), real)
-                 g == SSub(half, rec.bound)
-                 P == Mul(F!Dur(rec.asOf, mono).mag, rec.drift.mag)
-             IN ~g.neg /\ Within(g.mag, P))
+Exp(v) == F!Now(RecOf(v), V(v.real), V(v.mono))
 
-Bad == { i \in 1..Len(Vec) : ~Accept(Vec[i]) }
+\* C14: the call fails (or not) exactly as specified
+AcceptKind(v) == v.got.kind = Exp(v).kind
+\* C06: the status component
+AcceptStatus(v) == (Exp(v).kind = "Ok" /\ v.got.kind = "Ok") => v.got.status = Exp(v).status
+\* C05: the interval
+AcceptInterval(v) ==
+  (Exp(v).kind = "Ok" /\ v.got.kind = "Ok") =>
+    LET rec == RecOf(v)
+        real == V(v.real)
+        half == SSub(V(v.got.latest), real)
+        g == SSub(half, rec.bound)
+        P == Mul(F!Dur(rec.asOf, V(v.mono)).mag, rec.drift.mag)
+    IN /\ SAdd(V(v.got.earliest), V(v.got.latest)) = SAdd(real, real)
+       /\ SLeq(V(v.got.earliest), V(v.got.latest))
+       /\ ~g.neg /\ Within(g.mag, P)
+
+Ids(P(_)) == { Vec[i].id : i \in { j \in 1..Len(Vec) : ~P(Vec[j]) } }
 ASSUME PrintT(<<"CHECKED", Len(Vec)>>)
-ASSUME PrintT(<<"BAD", Bad>>)
+ASSUME PrintT(<<"BADKIND", Ids(AcceptKind)>>)
+ASSUME PrintT(<<"BADSTATUS", Ids(AcceptStatus)>>)
+ASSUME PrintT(<<"BADINTERVAL", Ids(AcceptInterval)>>)
 \* the specification's own result for the first vectors, written out as samples
 ASSUME \A i \in 1..(IF Len(Vec) < 3 THEN Len(Vec) ELSE 3) :
   PrintT(<<"SAMPLE", Vec[i].id, F!Now(RecOf(Vec[i]), V(Vec[i].real), V(Vec[i].mono))>>)
